@@ -323,6 +323,76 @@ func checkC04(c *Check) {
 		c.Hold("R2", "siblings", token.NoPos, same, "the sender selector and the recipient selector evaluate their stages in different orders")
 	}
 
+	// ---- R5 rewrite results are not overwritten while they are still being read
+	c.Rule("R5", "recipient rewriting: the list a rewriting loop appends to never shares storage with the list it is still iterating (a 1→N rewrite would overwrite addresses not yet routed)", 2)
+	for _, a := range [][3]string{{"internal/modify", "groupState", "RewriteRcpt"}, {pipelineRel, "msgpipelineDelivery", "AddRcpt"}} {
+		r := c.need("R5", a[0], a[1], a[2])
+		if r == nil {
+			continue
+		}
+		info := r.Info
+		msg := ""
+		ast.Inspect(r.FI.Decl.Body, func(n ast.Node) bool {
+			rs, ok := n.(*ast.RangeStmt)
+			if !ok {
+				return true
+			}
+			ranged := objOf(info, rs.X)
+			if ranged == nil {
+				return true
+			}
+			ast.Inspect(rs.Body, func(x ast.Node) bool {
+				as, ok := x.(*ast.AssignStmt)
+				if !ok || len(as.Lhs) != 1 || len(as.Rhs) != 1 {
+					return true
+				}
+				tgt, _ := appendTarget(info, as.Lhs[0], as.Rhs[0])
+				if tgt == nil {
+					return true
+				}
+				if tgt == ranged {
+					msg = "the loop appends to the list it ranges over"
+				}
+				// every definition of the target: must not be a reslice / alias of the ranged list
+				ast.Inspect(r.FI.Decl.Body, func(y ast.Node) bool {
+					check := func(l ast.Expr, rhs ast.Expr) {
+						if objOf(info, l) != tgt || rhs == nil {
+							return
+						}
+						e := ast.Unparen(rhs)
+						if se, ok := e.(*ast.SliceExpr); ok && objOf(info, se.X) == ranged {
+							msg = "the list the loop appends to is a reslice of the list it is iterating (" + exprStr(rhs) + "): a stage that expands one address to several overwrites the addresses that were not read yet – they are never routed and others are routed twice"
+						}
+						if objOf(info, e) == ranged {
+							// plain alias assigned before the loop body runs
+							if as2pos := l.Pos(); as2pos < rs.Body.Pos() || as2pos > rs.Body.End() {
+								msg = "the list the loop appends to is the same slice as the one it is iterating"
+							}
+						}
+					}
+					switch d := y.(type) {
+					case *ast.AssignStmt:
+						for i, l := range d.Lhs {
+							if i < len(d.Rhs) {
+								check(l, d.Rhs[i])
+							}
+						}
+					case *ast.ValueSpec:
+						for i, nm := range d.Names {
+							if i < len(d.Values) {
+								check(nm, d.Values[i])
+							}
+						}
+					}
+					return true
+				})
+				return true
+			})
+			return true
+		})
+		c.Hold("R5", a[1]+"."+a[2], r.FI.Decl.Pos(), msg == "", msg)
+	}
+
 	// ---- R4 exclusivity
 	c.Rule("R4", "AddRcpt: a recipient is handed only to the targets of the block selected for that very address, after the block's reject reply was honoured", 2)
 	if r := c.need("R4", pipelineRel, "msgpipelineDelivery", "AddRcpt"); r != nil {
